@@ -270,6 +270,9 @@ def build(spec, salt=0, level=0, seed=0):
     leaf = None
     if k == "Identity":
         leaf = B.Identity(shp())
+    elif k == "Affine" and spec.get("bscale"):
+        # scalar scale broadcast against a vector loc (the constructor's documented broadcasting), scale != 1
+        leaf = B.Affine(0.8 * _pat(prod(shp()), sf).reshape(shp()), 1.7)
     elif k == "Affine":
         n = prod(shp())
         leaf = B.Affine(0.8 * _pat(n, sf).reshape(shp()), (0.6 + 0.45 * jnp.arange(n) + 0.2 * jnp.abs(_pat(n, sf, 2.1))).reshape(shp()))
@@ -431,6 +434,8 @@ def all_leaves(tier="thorough"):
     out = []
     for s in LATTICE:
         out += ew_leaves(s)
+        if s != ():
+            out.append(L("Affine", shape=list(s), bscale=True))
         for p in perms_for(s):
             out.append(L("Permute", shape=list(s), perm=p))
         for cs in [(), (2,), (2, 3)]:
@@ -472,6 +477,7 @@ def rep_leaves():
         L("AddCond", shape=[2], cond=[2]), L("Tanh", shape=[3]), L("Scale", shape=[2, 3]), L("SoftPlus", shape=[]),
         L("Affine", shape=[]), L("MAF", dim=3, cond=2, tr="minscale"), L("Planar", dim=3, cond=2, slope=None),
         L("BNAF", dim=2, cond=None, depth=1, bd=2), L("Loc", shape=[2, 1, 2]), L("AddCond", shape=[2, 3], cond=[]),
+        L("Affine", shape=[3], bscale=True), L("Exp", shape=[1]),
     ]
 
 
